@@ -433,6 +433,11 @@ func (p *Packer) resolveExternalLinkChain(root string, path string, hops int) (*
 	if !filepath.IsAbs(absTarget) {
 		absTarget = filepath.Join(root, absTarget)
 	}
+	// An absolute target is taken as written so far, and may carry a trailing
+	// or doubled separator or dot segments. The walk of a dereferenced
+	// directory maps the paths below it by their prefix, which only works on
+	// the shortest spelling.
+	absTarget = filepath.Clean(absTarget)
 
 	// Get the file info for the target.
 	info, err := os.Lstat(absTarget)
